@@ -8,7 +8,7 @@ CONSTANTS
   MCIds = 3
   MCBodies = {"none", "once"}
   MCEnv = {"goaway", "srst", "cancel"}
-  MCStrict = {FALSE}
+  MCStrict = {TRUE, FALSE}
 INVARIANTS TypeOK IdsOdd InFlightIsLive NoSecondCopy
 PROPERTIES GrowWithinLimit QuietAfterGoAway IncreasingIds
 CHECK_DEADLOCK FALSE
